@@ -56,13 +56,17 @@ NoDuplicate   == l <= Len(Trace) => NoDuplicateRec(Trace[l])
 TotalOK       == l <= Len(Trace) => TotalOKRec(Trace[l])
 VariantsAgree == l <= Len(Trace) => VariantsAgreeRec(Trace[l])
 
-\* classification only (JudgeQuery_tolerant.cfg): a record that violates the
-\* property but satisfies this is an instance of a deviation already described
-\* in module Query; one that violates this too is something else
-HitsExactTolerant ==
+\* classification only (JudgeQuery_tolerant.cfg), for the runs that are prone to
+\* a deviation described in module Query: every such run either has the
+\* documented answer, or exactly the answer the described deviation produces.
+\* A record that violates the property (the invariants above) but satisfies
+\* this is an instance of that deviation and is reported under its key; one
+\* that violates this too is something else.
+HitsExactEither ==
     l <= Len(Trace) =>
         \A i \in DOMAIN Trace[l].runs :
-            /\ SetOf(Trace[l].runs[i].hits) = Q!HitsMode(Trace[l].q, Trace[l].corpus, ModeOf(Trace[l].runs[i]))
+            /\ \/ SetOf(Trace[l].runs[i].hits) = Expected(Trace[l])
+               \/ SetOf(Trace[l].runs[i].hits) = Q!HitsMode(Trace[l].q, Trace[l].corpus, ModeOf(Trace[l].runs[i]))
             /\ Trace[l].runs[i].total = Len(Trace[l].runs[i].hits)
             /\ Cardinality(SetOf(Trace[l].runs[i].hits)) = Len(Trace[l].runs[i].hits)
 =============================================================================
